@@ -1,6 +1,7 @@
 """C16 — SI prefix table is a consistent bijection."""
 ID = "C16"
 LEAN_MODULES = ["QtyModel.Props.C16"]
+HARNESS_GROUPS = ()
 BACKENDS = ("f64",)
 RULE = ("exhaustive on the implementation: the whole prefix table in iteration order, all 256 values of i8 for from_exp, "
         "all strings of length <= 2 over the abbreviation alphabet (plus random longer strings) for from_abbr; "
